@@ -12,6 +12,8 @@ HARNESS = {
                  repo=['librfn/mlog.c', 'librfn/string.c', 'librfn/util.c', 'librfn/posix/time_posix.c']),
     'hex': dict(cpp=['h/h_hex.cpp'], c=['adp/adp_hex.c'],
                 repo=['librfn/hex.c']),
+    'bintree': dict(cpp=['h/h_bintree.cpp'], c=['adp/adp_bintree.c'], repo=['librfn/bintree.c', 'librfn/util.c', 'librfn/posix/time_posix.c'],
+                    extra_san=['-fno-sanitize=alignment']),
     'list': dict(cpp=['h/h_list.cpp'], c=['adp/adp_list.c'], repo=['librfn/list.c']),
 }
 
@@ -98,6 +100,32 @@ PROPS = {
                  'trailing-junk': 1000, 'grammar-without-prefix': 1000},
         assumptions=['texts with an address prefix on only some lines are outside the stated grammar ("on each line") and are generated for the safety oracle only',
                      'glibc isspace/isxdigit accept negative char values (bytes >= 0x80) without faulting'],
+    ),
+    'C11': dict(
+        title='Tree iterators visit in the promised order, restore the tree, and free safely',
+        rule='enum stages = every binary tree shape with <= N nodes (pre-order existence bits with a node budget: a '
+             'bijection between tapes and shapes), each node its own malloc block under ASan, plus the same with nodes '
+             'at addresses == 2 (mod 4); per shape: in/pre/post-order iterators vs the harness recursive traversal and '
+             'the repo bintree_traverse_*, all links restored after completion, second iteration identical, then '
+             'bintree_free / _free_left / _free_right on every node with a logging, really-freeing deallocator '
+             '(subtree exactly once, children first, survivors untouched, parent link cleared). rc stage = the same on '
+             'random shapes <= 12 nodes, large/degenerate shapes up to 300 nodes (spines, zig-zag, skewed, full), and '
+             'left/right-leaning list spines of 0..20 list nodes (list iterator vs bintree_traverse_list). '
+             'Non-trivial: >= 3 nodes with a two-child node, or a spine of >= 2 list nodes. Distinct = distinct tapes.',
+        stages=[
+            dict(h='bintree', mode='enum', what='all shapes, malloc-per-node', params=dict(kind=0, mis=0),
+                 common=dict(split=8), quick=dict(params=dict(nodes=12)), thorough=dict(params=dict(nodes=14))),
+            dict(h='bintree', mode='enum', what='all shapes, 2-byte-aligned nodes', params=dict(kind=0, mis=1),
+                 common=dict(split=8), quick=dict(params=dict(nodes=11)), thorough=dict(params=dict(nodes=13))),
+            dict(h='bintree', mode='enum', what='all list spines', params=dict(kind=2, spine=20), workers=1),
+            dict(h='bintree', mode='rc', what='random / large / degenerate shapes and spines',
+                 quick=dict(cases=100000, len=700, maxsize=100), thorough=dict(cases=2000000, len=700)),
+        ],
+        require={'empty-tree': 1, 'single-node': 1, 'two-byte-aligned-nodes': 1000, 'large-shape': 500,
+                 'left-leaning-spine': 20, 'right-leaning-spine': 20, 'free-every-node-and-side': 1000},
+        assumptions=['list spines have non-NULL, non-list elements and lean one way (as the header draws them)',
+                     'the 2-byte-aligned variant is built with UBSan alignment checks off: the misalignment is the harness choice, inside the stated domain',
+                     'after bintree_free(node) the parent link to the freed subtree is the caller\'s business and is not inspected'],
     ),
     'C12': dict(
         title='Pack/unpack never leaves the buffer, fails stickily, and uses fixed byte order',
